@@ -20,11 +20,11 @@ import (
 
 type CliCase struct {
 	Case
-	Seed  int64       `json:"seed"`
-	More  []*ref.Node `json:"more,omitempty"` // further trees of the input stream
-	First bool        `json:"more_first,omitempty"`
-	ToFile bool       `json:"to_file,omitempty"`
-	InMode string     `json:"in_mode,omitempty"`
+	Seed   int64       `json:"seed"`
+	More   []*ref.Node `json:"more,omitempty"` // further trees of the input stream
+	First  bool        `json:"more_first,omitempty"`
+	ToFile bool        `json:"to_file,omitempty"`
+	InMode string      `json:"in_mode,omitempty"`
 }
 
 func (c CliCase) stream() []*ref.Node {
@@ -130,4 +130,3 @@ func TestC07Cli(t *testing.T) {
 		},
 	})
 }
-
